@@ -9,7 +9,7 @@ PROPERTY = "C19"
 NSHARDS = {"quick": 4, "thorough": 16}
 CLAUSES = {
     "C19.pareto.sound": 500, "C19.pareto.complete": 500, "C19.pareto.forms": 500,
-    "C19.pareto.order": 300, "C19.pareto.rescale": 300,
+    "C19.pareto.order": 300, "C19.pareto.rescale": 300, "C19.pareto.pure": 500, "C19.dist.rescale": 300,
     "C19.dominates.table": 500,
     "C19.dist.definition": 300, "C19.dist.translation": 300, "C19.dist.finite": 100,
 }
@@ -52,7 +52,7 @@ def ref_distance(mat, sign_wt, vec):
 
 # ---------------------------------------------------------------- generators
 def gen_points(g):
-    cls = ["lattice", "gauss", "collinear", "single", "constcol", "dups"][int(g.integers(0, 6))]
+    cls = ["lattice", "gauss", "collinear", "single", "constcol", "dups", "tinyrange"][int(g.integers(0, 7))]
     d = int(g.integers(1, 5))
     n = int(g.integers(1, 61)) if g.random() < 0.3 else int(g.integers(1, 14))
     if cls == "lattice":
@@ -65,6 +65,8 @@ def gen_points(g):
         n = 1; F = g.normal(size=(1, d))
     elif cls == "constcol":
         F = g.integers(0, 4, (n, d)).astype(float); F[:, int(g.integers(d))] = float(g.integers(-2, 3))
+    elif cls == "tinyrange":   # one objective with a real but tiny spread (1e-9 .. 1e-12 of the others)
+        F = g.integers(0, 5, (n, d)).astype(float); F[:, int(g.integers(d))] *= float(g.choice([1e-9, 1e-10, 1e-12]))
     else:
         base = g.normal(size=(max(1, n // 3), d)); F = base[g.integers(0, len(base), n)]
     wt = g.choice([-2.5, -1.0, 1.0, 2.5], d)
@@ -81,14 +83,17 @@ def case_pareto(ctx, c):
     if c % 211 == 0:
         ctx.sample({"fn": "is_pareto_efficient", "class": cls, "fmat": F.tolist(), "wt": wt.tolist()})
     site = "is_pareto_efficient"
+    Fcall = F.copy(); wcall = wt.copy()      # one caller-owned array handed to both calls (float64, as a caller would)
     try:
-        m = is_pareto_efficient(F.copy(), wt.copy(), True)
-        ix = is_pareto_efficient(F.copy(), wt.copy(), False)
+        m = is_pareto_efficient(Fcall, wcall, True)
+        ix = is_pareto_efficient(Fcall, wcall, False)
     except Exception as e:
         ctx.raised(site, e)
         ctx.violation("C19.pareto.returns", site, "raised %s" % type(e).__name__, cls, witness={"F": F, "wt": wt}, coords=coords)
         return
     w = {"fmat": F, "wt": wt, "mask": m, "index": ix}
+    ctx.check("C19.pareto.pure", numpy.array_equal(Fcall, F) and numpy.array_equal(wcall, wt), site, "the caller's point and weight arrays are not modified", cls,
+              witness=dict(w, fmat_after=Fcall), coords=coords)
     Fw = (F * wt[None, :]).tolist()
     ctx.check("C19.pareto.forms", m.dtype == bool and m.shape == (n,) and numpy.array_equal(numpy.flatnonzero(m), numpy.sort(ix))
               and len(set(numpy.asarray(ix).tolist())) == len(ix), site, "mask form == index form", cls, witness=w, coords=coords)
@@ -184,6 +189,8 @@ def case_dist(ctx, c):
         ctx.sample({"fn": "distance transformations", "class": cls, "front": F.tolist(), "sign_wt": sign.tolist(), "vec": vec.tolist()})
     exp = ref_distance(F, sign, vec)
     shift = g.integers(-5, 6, d).astype(float)  # integer shifts: exact on the lattice classes
+    rngcol = F.max(0) - F.min(0)
+    shift[(rngcol > 0) & (rngcol < 1e-6)] = 0.0   # adding O(1) to a column of spread 1e-9 is not an exact translation in floating point
     for name, fn in _dist_fns():
         try:
             got = numpy.asarray(fn(F.copy(), sign.copy(), vec.copy()), dtype=float)
@@ -201,6 +208,15 @@ def case_dist(ctx, c):
         err = float(numpy.max(numpy.abs(got - exp))) if got.shape == exp.shape else float("inf")
         ctx.maxnote("dist |got-expected|", err if err < 1e-6 else 0.0)
         ctx.check("C19.dist.definition", err <= TOL, name, "== geometric definition", icls, witness=dict(w, err=err), coords=coords)
+        try:   # positive rescaling of one objective (power of two): the front is min-max scaled, so distances must not change
+            jj = int(g.integers(d)); sc = float(g.choice([2.0 ** -30, 2.0 ** -10, 8.0, 2.0 ** 20]))
+            F4 = F.copy(); F4[:, jj] *= sc
+            got4 = numpy.asarray(fn(F4, sign.copy(), vec.copy()), dtype=float)
+            err4 = float(numpy.max(numpy.abs(got4 - got))) if numpy.all(numpy.isfinite(got4)) else float("inf")
+            ctx.check("C19.dist.rescale", err4 <= TOL, name, "invariant to positive rescaling of an objective", icls,
+                      witness=dict(w, column=jj, factor=sc, got_rescaled=got4), coords=coords)
+        except Exception as e:
+            ctx.violation("C19.dist.returns", name, "raised %s" % type(e).__name__, icls + "/rescaled", witness=w, coords=coords)
         try:
             got2 = numpy.asarray(fn(F + shift[None, :], sign.copy(), vec.copy()), dtype=float)
             err2 = float(numpy.max(numpy.abs(got2 - got))) if numpy.all(numpy.isfinite(got2)) else float("inf")
